@@ -31,9 +31,15 @@ class SList:
         self.name = name
 
     def snap(self):
-        return SList(self.esort, self.n, self.a, self.name)
+        c = SList(self.esort, self.n, self.a, self.name)
+        for k in ('posf', 'memberf', 'src', 'dst', 'base', 'cond_at', 'elt_at', 'sample_src', 'sample_pop'):
+            if k in self.__dict__:
+                c.__dict__[k] = self.__dict__[k]
+        return c
 
     def havoc(self):
+        for k in ('posf', 'memberf', 'src', 'dst', 'base', 'cond_at', 'elt_at', 'sample_src', 'sample_pop'):
+            self.__dict__.pop(k, None)
         zs = self.esort.zsort() if isinstance(self.esort, TupleSpec) else self.esort
         self.n = fresh(self.name + '_n', I)
         self.a = fresh(self.name + '_a', z3.ArraySort(I, zs))
@@ -108,6 +114,76 @@ class SDict:
 
     def same_vals(self, other):
         return so.forall(self.ksort, lambda k: self.val[k] == other.val[k])
+
+
+class SDictOfLists:
+    """defaultdict(lambda: []) / dict whose values are lists:  dom, lens[k], vals[k] (array of the k-th list).
+    d[k] yields an SListRef that reads and writes through to these arrays (reference semantics)."""
+    kind = 'dictoflists'
+
+    def __init__(self, ksort, esort, dom=None, lens=None, vals=None, default_empty=True, name='dl'):
+        self.ksort, self.esort, self.name, self.default_empty = ksort, esort, name, default_empty
+        self.dom = dom if dom is not None else fresh(name + '_dom', z3.ArraySort(ksort, B))
+        self.lens = lens if lens is not None else fresh(name + '_len', z3.ArraySort(ksort, I))
+        self.vals = vals if vals is not None else fresh(name + '_vals', z3.ArraySort(ksort, z3.ArraySort(I, esort)))
+        self.default = True if default_empty else None
+
+    def snap(self):
+        return SDictOfLists(self.ksort, self.esort, self.dom, self.lens, self.vals, self.default_empty, self.name)
+
+    def havoc(self):
+        self.dom = fresh(self.name + '_dom', z3.ArraySort(self.ksort, B))
+        self.lens = fresh(self.name + '_len', z3.ArraySort(self.ksort, I))
+        self.vals = fresh(self.name + '_vals', z3.ArraySort(self.ksort, z3.ArraySort(I, self.esort)))
+
+    def havoc_dom(self):
+        self.dom = fresh(self.name + '_dom', z3.ArraySort(self.ksort, B))
+
+    def wellformed(self):
+        c = [so.forall(self.ksort, lambda k: self.lens[k] >= 0)]
+        if self.default_empty:
+            c.append(so.forall(self.ksort, lambda k: Implies(Not(self.dom[k]), self.lens[k] == 0)))
+        if so.Mode.finite:
+            c.append(so.forall(self.ksort, lambda k: self.lens[k] <= so.Mode.lmax))
+        return And(*c)
+
+    def terms(self):
+        return [self.dom, self.lens, self.vals]
+
+    def at(self, k):
+        return SListRef(self, k)
+
+
+class SListRef(SList):
+    """the list stored under key k of an SDictOfLists (a live reference, not a copy)"""
+
+    def __init__(self, d, k):
+        self.d, self.k = d, k
+        self.esort = d.esort
+        self.name = d.name + '_item'
+
+    @property
+    def n(self):
+        return self.d.lens[self.k]
+
+    @n.setter
+    def n(self, v):
+        self.d.lens = z3.Store(self.d.lens, self.k, v)
+
+    @property
+    def a(self):
+        return self.d.vals[self.k]
+
+    @a.setter
+    def a(self, v):
+        self.d.vals = z3.Store(self.d.vals, self.k, v)
+
+    def snap(self):
+        return SList(self.esort, self.n, self.a, self.name)
+
+    def havoc(self):
+        self.n = fresh(self.name + '_n', I)
+        self.a = fresh(self.name + '_a', z3.ArraySort(I, self.esort))
 
 
 class SSet:
